@@ -151,6 +151,74 @@ def r2(ctx: Ctx) -> None:
     ctx.require(n >= 8, "fewer reachable Order constructions than confirmed by reading")
 
 
+def _expected_price_formula(ctx: Ctx, f, p: Path, E: Term, P: Term, conds) -> None:
+    """E = P x exp(r x window), r = (wf F + (+/-) wc C + wn N) / (wf + wc + wn) with the documented F, C, N"""
+    from ..terms import Unrecognised
+
+    def A(name: str) -> Term:
+        return ("attr", ("sym", "self"), name)
+
+    def call(fn: Term, *args: Term, **kws: Term) -> Term:
+        return ("call", fn, tuple(args), tuple(kws.items()), None)
+
+    def mul(*xs: Term) -> Term:
+        out = xs[0]
+        for x in xs[1:]:
+            out = ("bin", "*", out, x)
+        return out
+
+    def inv(x: Term) -> Term:
+        return ("bin", "/", ("const", 1.0), x)
+
+    follow = [pol for c, pol in conds if key(c) == "self.is_chart_following"]
+    if E[0] != "bin" or E[1] != "*" or P not in (E[2], E[3]):
+        ctx.unrec(f, f.node, "expected future price = market price x exp(expected log-return x window)", "the expected price is not written as a product with the market price", short(E)[:200])
+        return
+    ex = E[3] if E[2] == P else E[2]
+    if not (ex[0] == "call" and key(ex[1]) == "math.exp" and len(ex[2]) == 1):
+        ctx.unrec(f, f.node, "expected future price = market price x exp(expected log-return x window)", "no exponential factor", short(E)[:200])
+        return
+    if len(follow) != 1:
+        ctx.unrec(f, f.node, "the chart term enters with the sign of the agent's trend attitude", "one decision on self.is_chart_following expected", str(follow))
+        return
+    t = call(("attr", ("sym", "market"), "get_time"))
+    tws = A("time_window_size")
+    w = call(("name", "min"), t, tws)
+    F = mul(inv(call(("name", "max"), A("mean_reversion_time"), ("const", 1))), call(("name", "math.log"), ("bin", "/", call(("attr", ("sym", "market"), "get_fundamental_price")), P)))
+    C = mul(inv(call(("name", "max"), w, ("const", 1))), call(("name", "math.log"), ("bin", "/", P, call(("attr", ("sym", "market"), "get_market_price"), ("bin", "-", t, w)))))
+    N = mul(A("noise_scale"), call(("attr", A("prng"), "gauss"), mu=("const", 0.0), sigma=("const", 1.0)))
+    sgn = ("const", 1 if follow[0] else -1)
+    R = mul(inv(("bin", "+", ("bin", "+", A("fundamental_weight"), A("chart_weight")), A("noise_weight"))),
+            ("bin", "+", ("bin", "+", mul(A("fundamental_weight"), F), mul(A("chart_weight"), C, sgn)), mul(A("noise_weight"), N)))
+    want = mul(R, tws)
+
+    def norm_names(x: Term) -> Term:
+        # math.log is written as a module attribute in the code; compare by printed name
+        return x
+
+    try:
+        got_k = poly_of(_relabel(ex[2][0]))
+        want_k = poly_of(_relabel(want))
+    except Unrecognised as e:
+        ctx.unrec(f, f.node, "expected log-return is a weighted mean of the three documented components", f"not polynomial in the documented components: {e}")
+        return
+    ctx.check(got_k == want_k, f, f.node, "expected future price = P x exp(r x window), r = (wf F + s wc C + wn N)/(wf + wc + wn), F = log(fundamental/P)/max(reversion,1), C = log(P/P(t-w))/max(w,1), w = min(t, window), N = noise_scale x gauss(0,1)",
+              want_k[:400], got_k[:400])
+
+
+def _relabel(t: Term) -> Term:
+    """calls compared by their printed callee name so that `math.log` spelled as attribute or name agree"""
+    from ..terms import map_children
+
+    def go(x: Term) -> Term:
+        x = map_children(x, go)
+        if x[0] == "call":
+            return ("call", ("name", key(x[1])), x[2], x[3], x[4] if len(x) > 4 else None)
+        return x
+
+    return go(t)
+
+
 @rule("C20.R3", "FCN agent: one buy exactly when the expected future price exceeds the market price, one sell exactly when it is below; fixed margin quotes E(1-k) / E(1+k)", "T6 direction table + T7 product form", floor=4)
 def r3(ctx: Ctx) -> None:
     q = "FCNAgent.submit_orders_by_market"
@@ -174,6 +242,7 @@ def r3(ctx: Ctx) -> None:
             ctx.violated(f, f.node, "direction depends on comparing the expected price with the market price", "decisions `P < E` and `E < P`", p.describe()[-200:])
             continue
         E = up[0][0][3]
+        _expected_price_formula(ctx, f, p, E, P, conds)
         strict = up[0][0][1] == "<" and down[0][0][1] == "<" and down[0][0][2] == E
         want_buy = up[0][1] if strict else None
         want_sell = down[0][1] if strict else None
@@ -296,6 +365,26 @@ def r5(ctx: Ctx) -> None:
         lp = [l for l in loops(p) if key(strip_ver(l.iter)) == "markets"]
         ok = len(lp) == 1 and all(len([c for c in calls(bp) if calls_target(c, q)]) == 1 for bp in lp[0].paths)
         ctx.check(ok, g, g.node, "every market is examined once", "for market in markets: self._submit_orders(market)", f"{len(lp)} loop(s)")
+        # ... and every basket is passed on whole (an index leg without all its component legs is not a hedge)
+        from ..kit import seq_value
+
+        comp = seq_value(p, p.exit[1]) if p.exit[1] is not None else None
+        okc = comp is not None and comp[0] == "comp" and len(comp[3]) == 2
+        if okc:
+            g0, g1 = comp[3]
+            inner = strip_ver(g1[1])
+            okc = key(strip_ver(g0[1])) == "markets" and not g0[2] and not g1[2] and len(g0[0]) == 1 and len(g1[0]) == 1 and comp[2] == ("bound", g1[0][0]) \
+                and inner[0] == "call" and key(inner[1]) == "self._submit_orders" and (dict(inner[3]).get("market") or (inner[2][0] if inner[2] else None)) in (("bound", g0[0][0]), ("sym", f"{g0[0][0]}∈{lp[0].loopid}") if lp else None)
+        if comp is None:
+            # not a recognised construction: a violation only if some basket element is visibly skipped
+            skipping = [bp for l in [x for x in p.walk_events(True) if x.kind == "loop"] for bp in l.paths if bp.conds and bp.exit[0] in ("continue", "break", "fall")
+                        and not [e for e in calls(bp, into_loops=False) if e.name in ("append", "extend")] and any([e for e in calls(o, into_loops=False) if e.name in ("append", "extend")] for o in l.paths)]
+            if skipping:
+                ctx.violated(g, g.node, "the result is the concatenation of every market's whole basket, nothing dropped or filtered", "[o for market in markets for o in self._submit_orders(market)]", "an order of a basket is skipped under " + skipping[0].describe()[:120])
+            else:
+                ctx.unrec(g, g.node, "the result is the concatenation of every market's whole basket", "the way the result list is built is not modelled")
+        else:
+            ctx.check(okc, g, g.node, "the result is the concatenation of every market's whole basket, nothing dropped or filtered", "[o for market in markets for o in self._submit_orders(market)]", short(comp)[:200])
 
 
 @rule("C20.R6", "market-share FCN agent: picks one market among the accessible ones and places the FCN order on that market only", "T4 + T10", floor=1)
